@@ -40,6 +40,28 @@ def _attr(ex, o, attr, line):
     raise Unsupported('sympy node attribute %s' % attr)
 
 
+def arith(ex, op, a, b, line):
+    """a <op> b on sympy expressions (assumed contract on the dependency: the resulting node means the written operation)"""
+    def node(x):
+        if isinstance(x, SymNode):
+            return x
+        if isinstance(x, (int, float)) or hasattr(x, 'sort'):
+            return SymNode('Number', value=x)
+        raise Unsupported('sympy arithmetic with a %s operand (line %s)' % (type(x).__name__, line))
+    a, b = node(a), node(b)
+    if op == '+':
+        return SymNode('Add', [a, b])
+    if op == '-':
+        return SymNode('Add', [a, SymNode('Mul', [SymNode('Number', value=-1), b])])
+    if op == '*':
+        return SymNode('Mul', [a, b])
+    if op == '/':
+        return SymNode('Mul', [a, SymNode('Pow', [b, SymNode('Number', value=-1)])])
+    if op == '**':
+        return SymNode('Pow', [a, b])
+    raise Unsupported('sympy operator %s (line %s)' % (op, line))
+
+
 def install(ex):
     ex.ext_attr_handlers['SymNode'] = _attr
     old_type = ex.ext_builtins.get('type')
@@ -47,6 +69,10 @@ def install(ex):
     def type_(ex_, args, kwargs, line):
         a0 = args[0]
         if isinstance(a0, SymNode):
+            if a0.kind == 'Opaque':
+                # the structural induction treats children as opaque subtrees: code that inspects the KIND of a child is outside what the
+                # one-level shapes decide (the two-level shapes of contracts/types_terms.py decide it)
+                raise Unsupported('type() of an opaque sympy subtree (line %s)' % line)
             return Builtin('sympy.' + a0.kind)
         from bsvc.values import Obj, ClassRef
         if isinstance(a0, Obj):
